@@ -5,6 +5,7 @@
   histories recorded from the REAL tables.  Core Lean only.
 -/
 import NdnVerif.C06.Spec
+import NdnVerif.C16.Readv
 import Std.Data.HashSet
 namespace Ndn.C16
 open Ndn.C05 Ndn.C06
@@ -23,6 +24,7 @@ inductive SOp where
   | lf                     -- GetAllFIBEntries
   | lr                     -- Rib.GetAllEntries
   | ls                     -- GetAllForwardingStrategies
+  | adv                    -- the NLSR readvertiser: advertised counts and commands sent so far
 deriving Repr
 
 structure SSt where
@@ -31,9 +33,15 @@ structure SSt where
   /-- next hops installed by direct FIB commands (management `fib add-nexthop`); the generated
       histories keep these on prefixes the RIB never touches -/
   direct : C05.Spec
+  /-- the NLSR readvertiser the RIB calls back (advertised counts, commands sent) -/
+  rv : Rv := {}
 deriving Repr
 
-def SSt.init (dflt : Name) : SSt := ⟨C06.Spec.init, [([], dflt)], C05.Spec.init dflt⟩
+def SSt.init (dflt : Name) : SSt := ⟨C06.Spec.init, [([], dflt)], C05.Spec.init dflt, {}⟩
+
+/-- a RIB mutation together with the calls it makes into the readvertiser -/
+def SSt.ribStep (s : SSt) (op : C06.Op) : SSt :=
+  { s with rib := s.rib.apply op, rv := s.rv.run (ribCalls s.rib op) }
 
 /-- next hops of exactly prefix `p`: installed directly, or the flattening of its routes -/
 def SSt.fibAt (s : SSt) (p : Name) : Hops :=
@@ -57,6 +65,11 @@ def routeLt (a b : Route) : Bool :=
   a.face < b.face || (a.face == b.face && (a.origin < b.origin || (a.origin == b.origin &&
     (a.cost < b.cost || (a.cost == b.cost && a.flags < b.flags)))))
 
+/-- `name=count;…` for the non-zero advertised counts, then the numbers of commands sent -/
+def Rv.render (r : Rv) : String :=
+  renderListing ((r.adv.filter fun p => p.2 != 0).map fun p => (p.1.toText, toString p.2)) ++
+    s!" reg={(r.log.filter (·.1)).length} unreg={(r.log.filter (!·.1)).length}"
+
 def renderRoutes (rs : List Route) : String :=
   ",".intercalate ((sortBy routeLt rs).map fun r => s!"{r.face}/{r.origin}/{r.cost}/{r.flags}")
 
@@ -64,9 +77,9 @@ def SSt.stratAt (s : SSt) (n : Name) : Option Name := afind s.strat n
 
 /-- sequential semantics: new state and canonical result text -/
 def SSt.apply (s : SSt) : SOp → SSt × String
-  | .reg n r => ({ s with rib := s.rib.apply (.reg n r) }, "ok")
-  | .unreg n f o => ({ s with rib := s.rib.apply (.unreg n f o) }, "ok")
-  | .cleanup f => ({ s with rib := s.rib.apply (.cleanup f) }, "ok")
+  | .reg n r => (s.ribStep (.reg n r), "ok")
+  | .unreg n f o => (s.ribStep (.unreg n f o), "ok")
+  | .cleanup f => (s.ribStep (.cleanup f), "ok")
   | .fins n f c => ({ s with direct := s.direct.apply (.ins n f c) }, "ok")
   | .frem n f => ({ s with direct := s.direct.apply (.rem n f) }, "ok")
   | .sets n x => ({ s with strat := aset s.strat n x }, "ok")
@@ -78,11 +91,12 @@ def SSt.apply (s : SSt) : SOp → SSt × String
   | .lf => (s, renderListing ((s.rib.listFib ++ s.direct.listFib).map fun p => (p.1.toText, renderHops p.2)))
   | .lr => (s, renderListing (s.rib.listRib.map fun p => (p.1.toText, renderRoutes p.2)))
   | .ls => (s, renderListing (s.strat.map fun p => (p.1.toText, p.2.toText)))
+  | .adv => (s, s.rv.render)
 
 /-- canonical key of a state (listing order independent) -/
 def SSt.key (s : SSt) : String :=
   (s.apply .lr).2 ++ "|" ++ (s.apply .ls).2 ++ "|" ++
-    renderListing (s.direct.listFib.map fun p => (p.1.toText, renderHops p.2))
+    renderListing (s.direct.listFib.map fun p => (p.1.toText, renderHops p.2)) ++ "|" ++ s.rv.render
 
 /-- one completed operation of a recorded history -/
 structure HOp where
